@@ -516,7 +516,39 @@ where
             if (*kptr).0 != 0 {
                 self.count -= 1;
                 *kptr = Handle(0);
-                Some(std::ptr::read(self.values.as_ptr().add(ind)))
+                let result = std::ptr::read(self.values.as_ptr().add(ind));
+
+                // move the following entries of the probe chain back into the hole, otherwise
+                // lookups of handles that collided with the removed one would stop at the hole
+                let len_mask = self.capacity - 1;
+                let mut i = ind; // the empty slot
+                let mut j = (i + 1) & len_mask;
+                loop {
+                    let k = *self.handles.as_ptr().add(j);
+                    if k.0 == 0 {
+                        break;
+                    }
+                    // the entry may only move back if that does not place it before its optimal
+                    // slot, i.e. its optimal slot is not (cyclically) in (i, j]
+                    let optimal = (k.0.wrapping_mul(2654435769) as usize) & len_mask;
+                    let stays = if i <= j {
+                        i < optimal && optimal <= j
+                    } else {
+                        i < optimal || optimal <= j
+                    };
+                    if !stays {
+                        *self.handles.as_ptr().add(i) = k;
+                        *self.handles.as_ptr().add(j) = Handle(0);
+                        std::ptr::copy_nonoverlapping(
+                            self.values.as_ptr().add(j),
+                            self.values.as_ptr().add(i),
+                            1,
+                        );
+                        i = j;
+                    }
+                    j = (j + 1) & len_mask;
+                }
+                Some(result)
             } else {
                 None
             }
